@@ -88,7 +88,7 @@ pub fn trigger_holds(trigger: &str, sc: &Scenario) -> bool {
                                 }
                                 *r
                             }
-                            UnOp::Shuffle | UnOp::Gb(..) | UnOp::Broadcast | UnOp::Win(..) => Repl::Unlimited,
+                            UnOp::Shuffle | UnOp::Gb(..) | UnOp::Broadcast | UnOp::Win(..) | UnOp::Extra(ExtraOp::KeyedChain(..)) | UnOp::Extra(ExtraOp::UniqueKeys) => Repl::Unlimited,
                             UnOp::Gl(..) | UnOp::WinAll(..) => Repl::One,
                             _ => from,
                         };
